@@ -105,6 +105,12 @@ def gen(rng, tier):
                 yield 'lenp.m2s %d 0 l: %s %d' % (k, hexs(b'abcd'), n)
                 yield 'lenp.menc %d %s %d' % (k, hexs(b'abcd'), n)
         yield 'lenp.m2s %d 0 l: %s %d' % (k, hexs(b'abcd'), 2**64 - 1)
+        if k == 0:
+            # varint kind: the largest lengths whose prefix + payload no longer fit ssize_t (SSIZE_MAX-8 .. SSIZE_MAX, 9-octet prefix):
+            # refused by the memory-to-sink entry point BEFORE anything is emitted
+            for d in range(0, 9):
+                n = 2**63 - 1 - d
+                yield 'lenp.m2s 0 %d l: %s %d' % (rng.randrange(2), hexs(b'abcd'), n)
     # several consecutive frames on one stream, all fragmentations of short streams
     import itertools
     for k in range(6):
